@@ -11,6 +11,7 @@ import (
 	"sort"
 	"strconv"
 	"strings"
+	"sync/atomic"
 
 	"github.com/onheap/eval"
 
@@ -32,11 +33,11 @@ type ConstDecl struct {
 }
 
 const (
-	RegExplicit   = iota // VariableKeyMap filled with explicit keys KeyBase, KeyBase+1, ...
-	RegGetOrReg          // GetOrRegisterKey in declaration order
-	RegVarAndOp          // eval.RegVarAndOp(map of the variables)
-	RegUndefined         // nothing registered, AllowUndefinedVariable
-	RegHalf              // every second variable registered, AllowUndefinedVariable for the rest
+	RegExplicit  = iota // VariableKeyMap filled with explicit keys KeyBase, KeyBase+1, ...
+	RegGetOrReg         // GetOrRegisterKey in declaration order
+	RegVarAndOp         // eval.RegVarAndOp(map of the variables)
+	RegUndefined        // nothing registered, AllowUndefinedVariable
+	RegHalf             // every second variable registered, AllowUndefinedVariable for the rest
 	regModes
 )
 
@@ -195,6 +196,7 @@ type Build struct {
 	Costs   []CostEntry
 	Events  int // 0 none, 1 ReportEvent, 2 Debug
 	Infix   bool
+	Pure    bool // register lock-free, non-logging custom operators (for programs shared between goroutines)
 }
 
 func maskName(mask int) string {
@@ -300,9 +302,28 @@ func NewConfig(u *Universe, log *Log, b Build) (*eval.Config, string) {
 	for _, c := range u.Consts {
 		cc.ConstantMap[c.Name] = c.Val.X
 	}
-	registerCustom(cc, log)
+	if b.Pure {
+		registerPure(cc)
+	} else {
+		registerCustom(cc, log)
+	}
 	cc.StatelessOperators = append(cc.StatelessOperators, u.Stateless...)
 	return cc, prefix
+}
+
+// registerPure registers the custom operators without any logging or state, so that
+// a config / program using them can be shared between goroutines (c_cnt is a constant 0).
+func registerPure(cc *eval.Config) {
+	for name, f := range customModel() {
+		f := f
+		cc.OperatorMap[name] = func(_ *eval.Ctx, params []eval.Value) (eval.Value, error) {
+			args := make([]interface{}, len(params))
+			for i, p := range params {
+				args[i] = p
+			}
+			return f(args, 0)
+		}
+	}
 }
 
 func registerVars(cc *eval.Config, u *Universe) {
@@ -451,7 +472,7 @@ func repoFrame() string {
 
 // Safe runs an engine call that yields (value, error) and captures a panic.
 func Safe(f func() (eval.Value, error)) (o Outcome) {
-	engineCalls++
+	atomic.AddInt64(&engineCalls, 1)
 	defer func() {
 		if r := recover(); r != nil {
 			o.Panic, o.Site = r, repoFrame()
@@ -463,7 +484,7 @@ func Safe(f func() (eval.Value, error)) (o Outcome) {
 
 // SafeStr runs an engine call that yields text (Dump, DumpTable, IndentByParentheses).
 func SafeStr(f func() string) (s string, o Outcome) {
-	engineCalls++
+	atomic.AddInt64(&engineCalls, 1)
 	defer func() {
 		if r := recover(); r != nil {
 			o.Panic, o.Site = r, repoFrame()
@@ -475,7 +496,7 @@ func SafeStr(f func() string) (s string, o Outcome) {
 
 // SafeCompile compiles and captures panics; exactly one of expr/error must be non-nil.
 func SafeCompile(cc *eval.Config, src string) (e *eval.Expr, o Outcome) {
-	engineCalls++
+	atomic.AddInt64(&engineCalls, 1)
 	defer func() {
 		if r := recover(); r != nil {
 			e = nil
@@ -523,6 +544,9 @@ func SameOutcome(a, b Outcome) bool {
 	}
 	if a.Err != nil {
 		return m.ErrClass(a.Err) == m.ErrClass(b.Err)
+	}
+	if a.Val == eval.DNE || b.Val == eval.DNE {
+		return a.Val == eval.DNE && b.Val == eval.DNE
 	}
 	return m.EqualVal(a.Val, b.Val)
 }
